@@ -4,7 +4,7 @@
    that are run on binary64 against the C library) into MathComp matrices. *)
 From Coq Require Import Floats.
 From mathcomp Require Import all_ssreflect all_algebra.
-From LS Require Import NumOps RcfOps F64Ops Kernels KernelsSpec XSortSpec Euclid CovSpec PreprocessSpec PreprocessSpec2.
+From LS Require Import NumOps RcfOps F64Ops Kernels KernelsSpec XSortSpec Euclid CovSpec PreprocessSpec PreprocessSpec2 Tensor TensorSpec.
 Set Implicit Arguments. Unset Strict Implicit. Unset Printing Implicit Defensive.
 Import Order.TTheory GRing.Theory Num.Theory.
 Local Open Scope ring_scope.
@@ -83,6 +83,16 @@ Proof. exact: covariance_symmetric. Qed.
 Theorem C11_covariance_cauchy_schwarz (M : seq (seq R)) i j : (i < ncols M)%N -> (j < ncols M)%N ->
   (nth [::] (covariance M) i)`_j ^+ 2 <= (nth [::] (covariance M) i)`_i * (nth [::] (covariance M) j)`_j.
 Proof. exact: covariance_cauchy_schwarz. Qed.
+(* the tensor contractions accumulate exactly the sums of their definitions, for every tensor, vector and start content *)
+Theorem C11_dvector_tensor_dot (t : seq (seq (seq R))) (v : seq R) (m : seq (seq R)) j k : (j < size m)%N -> (k < size t)%N ->
+  mget (dvector_tensor_dot t v m) j k = mget m j k + \sum_(i <- iota 0 (size v)) v`_i * mget (slice t k) i j.
+Proof. exact: dvector_tensor_dotE. Qed.
+Theorem C11_transposed_tensor_dvector (t : seq (seq (seq R))) (v : seq R) (p : seq (seq R)) k i : (k < size t)%N -> (i < size (slice t k))%N ->
+  mget (transposed_tensor_dvector t v p) k i = mget p k i + \sum_(j <- iota 0 (ncols (slice t k))) mget (slice t k) i j * v`_j.
+Proof. exact: transposed_tensor_dvectorE. Qed.
+Theorem C11_tensor_matrix_dot (t : seq (seq (seq R))) (m : seq (seq R)) (v : seq R) i : (i < size v)%N ->
+  (tensor_matrix_dot t m v)`_i = v`_i + \sum_(k <- iota 0 (size t)) \sum_(j <- iota 0 (ncols (slice t k))) mget (slice t k) i j * mget m j k.
+Proof. exact: tensor_matrix_dotE. Qed.
 End C11.
 
 (* the same definitions executed on binary64 (what the correspondence check runs) *)
@@ -92,6 +102,7 @@ Example C11_f64_runs :
 Proof. by vm_compute. Qed.
 
 Print Assumptions C11_matmul.
+Print Assumptions C11_tensor_matrix_dot.
 Print Assumptions C11_matmul_unrolled.
 Print Assumptions C11_unrolled_inner_product.
 Print Assumptions C11_matvec.
